@@ -640,6 +640,23 @@ def replay(chk, path):
                 log("lambda=%s ustar=%r: loop law %.3f/N (tolerance %.1f/N), total law %.3f/N (tolerance %.1f/N)" % (
                     name, lp["ustar"], lp["d_loop"] * sc["n"], TOL_LOOP, lp["d_total"] * sc["n"], TOL_TOTAL))
                 bad = bad or lp["d_loop"] > TOL_LOOP / sc["n"] or lp["d_total"] > TOL_TOTAL / sc["n"]
+    elif sc["kind"] in ("law-e2e", "threshold-probe"):
+        # the end-to-end law is measured again with the seed of the scenario and the same rate is looked up
+        import math
+        out = os.path.join(chk.wd, "law_replay.json")
+        harness("c16", ["law", "out=" + out, "seed=%d" % sc.get("seed", chk.seed), "n=1000000"], timeout=3000)
+        r = json.load(open(out))
+        bad = False
+        if sc["kind"] == "threshold-probe":
+            bad = len(r["probe_failures"]) > 0
+            log("%d threshold probes out of range" % len(r["probe_failures"]))
+        else:
+            lam = sc["cell"].get("lambda")
+            for c in r["laws"]:
+                if c.get("lambda") == lam:
+                    rad = math.sqrt(math.log(2.0 / (1e-9 / len(r["laws"]))) / (2.0 * c["n"])) if c.get("n") else 0.0
+                    log("lambda=%r: %s" % (lam, json.dumps(c)[:400]))
+                    bad = bool(c.get("panic")) or bool(c.get("out_of_range")) or c.get("ks", 0.0) > rad
     else:
         log("scenario kind %s: re-run ./check C16" % sc["kind"])
         return 2
